@@ -149,9 +149,13 @@ func c20Unit(name string, lvl int) core.Unit {
 			if len(idx) == 0 {
 				continue
 			}
-			rank, off, _ := m.Rank(idx, 1)
+			rank, off, wit := m.Rank(idx, 3)
 			if off > 0 {
-				r.Incompletef("C20 %s: Compare is not a total preorder on the sub-universe (reported by C01); equal-class and convexity checks presuppose it and were skipped for this ecosystem", name)
+				// Compare is not a total preorder here (C01 reports that). The class-based
+				// decision procedure needs one, so only the offending triples are judged, with
+				// pairwise Compare: p <= q <= r, p and r inside a conjunctive range, q outside.
+				c20Triples(r, e, name, strs, vs, wit, c20Ranges(name, lvl, strs))
+				r.Incompletef("C20 %s: Compare is not a total preorder on the sub-universe (reported by C01); only the offending triples were checked for convexity", name)
 				return
 			}
 			cls, nc := order.Classes(rank)
@@ -246,6 +250,47 @@ func c20Unit(name string, lvl int) core.Unit {
 			r.Sample("range", map[string]any{"eco": name, "range": rstrs[len(rstrs)/2], "versions": n})
 		}
 	}}
+}
+
+// c20Triples checks convexity on witness triples of an order that is not a total preorder.
+func c20Triples(r *core.Result, e eco.Eco, name string, strs []string, vs []eco.Ver, wit []order.Triple, ranges []string) {
+	syn := gen.SyntaxTable[name]
+	for wi, w := range wit {
+		if wi >= 3 {
+			break
+		}
+		t := []int{w.A, w.B, w.C}
+		var rs []string
+		for _, i := range t {
+			for _, op := range syn.Ops {
+				rs = append(rs, op+strs[i]+syn.SingleSuffix)
+			}
+		}
+		rs = append(rs, ranges...)
+		for _, rstr := range rs {
+			if rstr == "" || !conjunctiveRange(name, rstr) || (name == "pypi" && strings.Contains(rstr, "===")) {
+				continue
+			}
+			rg, err := eco.SafeParseRange(e, rstr)
+			if err != nil {
+				continue
+			}
+			var mem [3]bool
+			for k, i := range t {
+				mem[k], _ = eco.SafeContains(rg, vs[i])
+				r.Add("evaluations", 1)
+			}
+			for _, p := range permutations(3) {
+				a, b, c := p[0], p[1], p[2]
+				ab, _ := eco.SafeCompare(vs[t[a]], vs[t[b]])
+				bc, _ := eco.SafeCompare(vs[t[b]], vs[t[c]])
+				if ab <= 0 && bc <= 0 && mem[a] && !mem[b] && mem[c] {
+					r.Violate(core.Violation{Property: "C20", Scope: name, Kind: "not-convex", Inputs: []string{rstr, strs[t[a]], strs[t[b]], strs[t[c]]},
+						Expected: "a <= b <= c with a and c inside implies b inside", Got: "Contains(a)=true Contains(b)=false Contains(c)=true"})
+				}
+			}
+		}
+	}
 }
 
 func init() {
